@@ -10,6 +10,9 @@
       -> per attempt "<outcome> n=<waiting requests before each step> link=<manifest id|none> files=<hex,...> stage=<hex,...>", joined by " | "
     push <nlayers> {postErr|cached|putOk|putErr}* <nsched> {k}* <manifestOk 0|1>
       -> "<events> res=<ok|err>" | bad-schedule
+    hpull <thr> <limit|-1> <linkShortcut> <verify> <staged> <nattempts> {attempt}*   (Local.handlePull's loop; the
+      scripts are consumed one per Pull; when they run out while the loop still retries, the client goes away)
+      -> "res=<ok|err:cls|clientGone> success=<true|false> attempts=<k> link=<manifest id|none>"
     canretry <ok|cls>  -> 1 | 0   (the model's `canRetry`)
     legacy <nlayers> {<head 0|1|2> <post 0|1> <npatch> {0|1}* <ncommit> {0|1}*}* <manifestOk 0|1>
       -> "<events> res=<ok|err>"
@@ -176,6 +179,27 @@ def handle (toks : List String) : Option String :=
       let as ← listOf pAttempt
       let cfg : Cfg := ⟨thr, if lim < 0 then none else some lim.toNat, sc, vf, sg⟩
       pure (joinWith " | " (showHistory cfg Cache.empty as))) rest
+  | "hpull" :: rest =>
+    runTP (do
+      let thr ← nat
+      let lim ← int
+      let sc ← pBool
+      let vf ← pBool
+      let sg ← pBool
+      let as ← listOf pAttempt
+      let cfg : Cfg := ⟨thr, if lim < 0 then none else some lim.toNat, sc, vf, sg⟩
+      let r := handlePull id cfg Cache.empty as
+      let k := handlePullAttempts id cfg Cache.empty as
+      let res := match r.2 with
+        | none => "clientGone"
+        | some o => showOutcome o
+      let name := match as with
+        | a :: _ => a.name
+        | [] => 0
+      let link := match r.1.links name with
+        | some m => toString m.id
+        | none => "none"
+      pure s!"res={res} success={handlerSaysSuccess r.2} attempts={k} link={link}") rest
   | "push" :: rest =>
     runTP (do
       let outs ← listOf pOut
